@@ -36,8 +36,10 @@ META = {
         "(minimize) = some item of positive value fits, so maximising instead would be visible. "
         "bin packing: n<=9 (thorough 12) sizes, integer or dyadic (k/8) plus a small tenths class; families uniform, "
         "near cap/2-cap/3-cap/4, the 4-4-3-3-3-3/10 pattern scaled (+extras, perturbed), perfect packings (each of 1-3 "
-        "bins cut into 1-4 parts), items equal to the capacity and zeros; given/shuffled/increasing order; four "
-        "algorithms in 18 spellings + the default. Oracle: exact minimum by decision search in rationals. Every item "
+        "bins cut into 1-4 parts), items equal to the capacity and zeros, ascending complements (k=4..5/6 items of size "
+        "a then k of size cap-a-e, up to 2 fillers, n<=12/14, OPT=k, decreasing variants only: plain any-fit in the given "
+        "order breaks the 11/9 bound there, any-fit on the sorted list is optimal); given/shuffled/increasing order; four "
+        "algorithms in 28 spellings (incl. the pure-underscore forms) + the default. Oracle: exact minimum by decision search in rationals. Every item "
         "has one bin index, loads <= capacity(1+1e-9), bins exactly 0..k-1, k == objective, k >= ceil(total/capacity) "
         "(exact rationals), decreasing variants 9k <= 11 OPT + 6 (asserted on integer/dyadic data, a statistic for "
         "tenths), OPTIMAL => k == OPT (tenths: against the more lenient of the decimal and the binary reading). "
@@ -328,12 +330,20 @@ def run_knapsack(desc, ctx):
 
 
 # ============================================================================= bin packing
+# Every form the parser accepts (case-insensitive, "_" == "-", ff/bf aliases), including the pure-underscore forms
+# of the decreasing variants.
 SPELLINGS = {
-    "first-fit": ["first-fit", "ff", "First_Fit", "FIRST-FIT", "FF"],
-    "best-fit": ["best-fit", "bf", "best_fit", "Best-Fit"],
-    "first-fit-decreasing": ["first-fit-decreasing", "ff-decreasing", "first_fit_decreasing", "FF_Decreasing", "First-Fit_DECREASING"],
-    "best-fit-decreasing": ["best-fit-decreasing", None, "bf-decreasing", "BEST_FIT_DECREASING", "bf_decreasing"],
-}
+    "first-fit": ["first-fit", "ff", "First_Fit", "FIRST-FIT", "FF", "first_fit"],
+    "best-fit": ["best-fit", "bf", "best_fit", "Best-Fit", "BF"],
+    "first-fit-decreasing": [
+        "first-fit-decreasing", "ff-decreasing", "first_fit_decreasing", "ff_decreasing", "FF_Decreasing",
+        "First-Fit_DECREASING", "FIRST_FIT_DECREASING", "first_fit-decreasing", "FF-DECREASING",
+    ],
+    "best-fit-decreasing": [
+        "best-fit-decreasing", None, "bf-decreasing", "best_fit_decreasing", "bf_decreasing", "BEST_FIT_DECREASING",
+        "Best_Fit-Decreasing", "best-fit_decreasing", "BF_Decreasing",
+    ],
+}  # fmt: skip
 
 
 @st.composite
@@ -341,8 +351,28 @@ def pack_cases(draw, tier="quick"):
     nmax = 12 if tier == "thorough" else 9
     r = draw(st.integers(0, 99))
     den = 1 if r < 48 else 8 if r < 92 else 10
-    family = draw(st.sampled_from(["uniform", "half-third", "pattern", "perfect", "full-zero"]))
-    if family == "uniform":
+    family = draw(st.sampled_from(["uniform", "half-third", "pattern", "perfect", "full-zero", "asc-complements"]))
+    algo = None
+    if family == "asc-complements":
+        # k items of size a, then k items of size cap-a-e (> cap/2), in that ascending order, plus up to k fillers
+        # <= e.  OPT = k (the big items exclude each other, big+small+filler share a bin) and any-fit on the
+        # *sorted* list finds it, while plain first/best-fit in the given order needs about 1.5k bins, beyond
+        # 11/9 k + 6/9 from k = 4 on: the one place where "decreasing" that did not sort shows.  n up to 12 (14).
+        if den == 10:
+            den = 8
+        k = draw(st.integers(4, 6 if tier == "thorough" else 5))
+        half = draw(st.integers(5, 30))  # cap = 2*half or 2*half+1
+        cap = 2 * half + draw(st.integers(0, 1))
+        e = draw(st.integers(0, 2))
+        lo = cap // 3 + 1 if draw(st.integers(0, 3)) else 1  # mostly cap/3 < a < cap/2: two small ones per bin
+        hi = max(1, (cap - 1) // 2 - e)  # cap - a - e > cap/2
+        a = draw(st.integers(min(lo, hi), hi))
+        fillers = [draw(st.integers(0, e)) for _ in range(draw(st.integers(0, 2)))]
+        sizes = [a] * k + [cap - a - e] * k
+        where = draw(st.sampled_from(["front", "back", "middle"]))
+        sizes = fillers + sizes if where == "front" else sizes + fillers if where == "back" else [a] * k + fillers + [cap - a - e] * k
+        algo = draw(st.sampled_from(["first-fit-decreasing", "best-fit-decreasing"]))
+    elif family == "uniform":
         cap = draw(st.integers(1, 20 if den == 1 else 20 * den if den == 8 else 30))
         n = _size_n(draw, nmax)
         sizes = [draw(st.integers(0, cap)) for _ in range(n)]
@@ -376,13 +406,14 @@ def pack_cases(draw, tier="quick"):
         cap = draw(st.integers(1, 24))
         n = _size_n(draw, nmax)
         sizes = [draw(st.sampled_from([0, 0, cap, cap, max(0, cap - 1), draw(st.integers(0, cap))])) for _ in range(n)]
-    if len(sizes) > 1:
+    if len(sizes) > 1 and family != "asc-complements":
         order = draw(st.sampled_from(["given", "shuffled", "increasing"]))
         if order == "shuffled":
             sizes = list(draw(st.permutations(sizes)))
         elif order == "increasing":
             sizes = sorted(sizes)
-    algo = draw(st.sampled_from(sorted(SPELLINGS)))
+    if algo is None:
+        algo = draw(st.sampled_from(sorted(SPELLINGS)))
     spelling = draw(st.sampled_from(SPELLINGS[algo]))
     return {
         "family": family,
@@ -433,6 +464,7 @@ def run_bin_pack(desc, ctx):
     ffd = P.first_fit_decreasing(ms, mcap)
     presorted = all(desc["sizes"][i] >= desc["sizes"][i + 1] for i in range(n - 1))
     ctx.label("fam-" + desc["family"], algo, f"den-{den}", spelling not in (algo,) and "alt-spelling", spelling is None and "default-algorithm")
+    ctx.label(spelling is not None and "_" in spelling and "-" not in spelling and "underscore-only-spelling")
     ctx.label(any(k == 0 for k in desc["sizes"]) and "has-zero-size", any(k == desc["cap"] for k in desc["sizes"]) and "item==capacity")
     ctx.label(n == 0 and "n=0", opt > lb and "OPT>ceil-bound", ffd > opt and "FFD-hard", f"OPT-{min(opt, 4)}{'+' if opt >= 4 else ''}")
     ctx.label(f"status-{getattr(res.status, 'name', res.status)}")
